@@ -62,6 +62,9 @@ def main() -> int:
     cases = []
     for label, d in docs.matrix_docs()[:: (4 if quick else 1)]:
         cases.append((f"matrix:{label}", d, {"matrix"}, {}))
+    for label, d in docs.sharing_docs():
+        cases.append((label, d, {"sharing", label}, {}))
+        cases.append((label + ":le", d, {"sharing", label, "le"}, {"literal_enums": True}))
     for i in range(n_docs):
         d, feats = docs.random_doc(("C12", seed(), i), n_schemas=r.randint(4, 12))
         cases.append((f"random:{i}", d, feats, {"literal_enums": i % 3 == 2}))
@@ -94,7 +97,7 @@ def main() -> int:
     for ci, (label, d, feats, cfg) in enumerate(cases):
         if not clean.get(ci):
             continue
-        for k in range(n_perm):
+        for k in range(n_perm * (3 if label.startswith("sharing") else 1)):
             what = ["schemas", "paths", "both"][k % 3]
             pd = permute(d, r, what)
             j = run.job(pd, want=["tree"], cfg=cfg, hooks=ci % 5 == 0)
